@@ -283,7 +283,7 @@ def rule_lists(ctx):
     bb = printers.display_impl(fx, "asp", "Body")
     bp = printers.evaluate(fx, bb)
     seps = [sym.anon_format(item)[1] for c, l, item in bp.out if item[0] == "write"]      # a separator kept in a constant is part of the text
-    ctx.add("LIST", "Body:separator", seps == ["{}", ", {}"], ctx.site(bb), "body formulas are separated by `, ` (the grammar accepts `,` and `;`)")
+    ctx.add("LIST", "Body:separator", seps in (["{}", ", {}"], [", ", "{}"]), ctx.site(bb), "body formulas are separated by `, ` (the grammar accepts `,` and `;`)")
     # variables and symbols are printed verbatim
     vb = printers.display_impl(fx, "asp", "Variable")
     v = printers.evaluate(fx, vb).value
